@@ -57,31 +57,38 @@ def get_twin(mutator_key=None, mutator=None, **kw):
 def explore(cfg, harness, twin=None, on_leaf=None, witness_fn=None, witness_stride=0,
             max_paths=None, deadline_s=None, solver_timeout_ms=60000, seed=0, prefix=None):
     """run one configuration; returns a picklable result dict"""
+    import zlib
     from symx import core
     t0 = time.time()
     eng = core.Engine(seed=seed, solver_timeout_ms=solver_timeout_ms, max_paths=max_paths,
                       deadline=(t0 + deadline_s) if deadline_s else None)
-    witnesses = []
-    counter = [0]
 
     def leaf(e, res):
         if on_leaf is not None:
             on_leaf(e, res)
         if witness_fn is not None and witness_stride:
-            k = counter[0]
-            counter[0] += 1
-            if (k + seed) % witness_stride == 0 and len(witnesses) < 64:
+            k = zlib.crc32(e.path_string().encode())
+            if (k + seed) % witness_stride == 0:
                 try:
                     m = e.witness()
                     w = witness_fn(e, m, res)
                     if w is not None:
                         w["path"] = e.path_string()
-                        witnesses.append(w)
+                        e.emit("witness", w)
                 except core.PathAbort:
                     pass
 
     if twin is not None:
-        twin.start_profile()
+        twin.entered.clear()
+        twin.start_profile()     # the first path is profiled completely; later processes by sampling
+
+        def hook(e):
+            if zlib.crc32(e.path_string().encode()) % 8 == 0:
+                twin.start_profile()
+            else:
+                sys.setprofile(None)
+        eng.child_hook = hook
+        eng.exit_hooks.append(lambda e: e.emit("functions", sorted(twin.entered)))
     err = None
     try:
         eng.explore(harness, on_leaf=leaf, prefix=prefix)
@@ -90,17 +97,24 @@ def explore(cfg, harness, twin=None, on_leaf=None, witness_fn=None, witness_stri
     finally:
         if twin is not None:
             twin.stop_profile()
+    if eng.errors and err is None:
+        err = "; ".join(eng.errors[:3])
     viol = []
     for v in eng.violations:
         v = dict(v)
         v.pop("_m", None)
         viol.append(v)
+    functions = set(twin.entered) if twin is not None else set()
+    for fl in eng.emitted.get("functions", []):
+        functions.update(fl)
+    witnesses = eng.emitted.get("witness", [])[:64]
+    extra = {k: v for k, v in eng.emitted.items() if k not in ("witness", "functions")}
     return dict(cfg=cfg, stats=eng.stats, exhaustive=eng.exhaustive and err is None,
                 unknowns=eng.unknowns[:50], n_unknown=len(eng.unknowns),
                 violations=viol[:200], n_violations=len(viol),
                 illdefined=eng.illdefined[:50], n_illdefined=len(eng.illdefined),
-                samples=eng.samples, witnesses=witnesses, error=err,
-                functions=sorted(twin.entered) if twin is not None else [],
+                samples=eng.samples[:3], witnesses=witnesses, error=err, emitted=extra,
+                functions=sorted(functions),
                 sha256=dict(twin.sha256) if twin is not None else {},
                 lowered=twin.lowered if twin is not None else 0,
                 wall=time.time() - t0)
@@ -124,6 +138,8 @@ def run_parallel(modname, fname, cfgs, procs=None):
     if procs == 1 or len(tasks) <= 1:
         return [_run_task(t) for t in tasks]
     ctx = mp.get_context("fork")
+    from symx import core
+    core.SLOTS = ctx.Semaphore(procs)
     with ctx.Pool(min(procs, len(tasks)), maxtasksperchild=4) as pool:
         return list(pool.imap_unordered(_run_task, tasks, chunksize=1))
 
